@@ -116,6 +116,29 @@ pub fn run(tier: &str, seed: u64, dir: &str) {
                 }
             }
         }
+        // a re-join: the RX1 delay of the new session is the new JoinAccept's, whatever the previous
+        // session had negotiated (JoinAccept RxDelay, RXTimingSetupReq)
+        for (k, (d1, d2)) in [(5u8, 1u8), (5, 0), (15, 1), (2, 0), (0, 7), (3, 3)].into_iter().enumerate() {
+            let mut h = Hist::new("C10", region, 20, 0, 700 + k as u64, &[], None);
+            h.go_live();
+            for (round, d) in [d1, d2].into_iter().enumerate() {
+                h.ev("otaa");
+                let devaddr = 0x0100_0000 + (rng.next() as u32 & 0xffffff);
+                let root = h.root;
+                let acc = build_join_accept(&root, devaddr, 0, d, &CfDesc::None);
+                h.rx_bytes(if (k + round) % 2 == 0 { "rx1" } else { "rx2" }, 5, &acc, None);
+                h.devaddr = devaddr;
+                h.last_down = None;
+                h.snap().ev("delays");
+                if round == 0 && k % 2 == 1 {
+                    // the first session also renegotiates by RXTimingSetupReq
+                    h.send(1, false, &[1]).rx_auth("rx1", 0, 1, false, &rx_timing_setup_req(9), None, &[]).snap();
+                }
+                h.send(1, false, &[2]).timeout().snap();
+            }
+            let op = h.done();
+            sink.case(&op, &eval(&op), "rejoin-rxdelay", true);
+        }
         let n = if thorough { 1500 } else { 80 };
         for _ in 0..n {
             let mut o = Opts::default();
